@@ -14,6 +14,10 @@ LDB_DEFS := -D_GNU_SOURCE -DLDB_PTHREAD -DNDEBUG -DLCDB_VERIF
 ifeq ($(FEAT),pread)
 LDB_DEFS += -DLDB_HAVE_PREAD -DLDB_HAVE_FDATASYNC
 endif
+# lcdb's own assert()s and its #ifndef NDEBUG structure checks compiled in: extra oracles inside the code under test
+ifeq ($(FEAT),assert)
+LDB_DEFS := $(filter-out -DNDEBUG,$(LDB_DEFS))
+endif
 
 ifeq ($(VARIANT),fast)
 CC := gcc
@@ -47,7 +51,7 @@ H_SRCS := $(wildcard src/*.cc)
 H_OBJS := $(patsubst src/%.cc,$(B)/h/%.o,$(H_SRCS)) $(B)/h/logfmt_glue.o
 
 WRAPS := open close read pread write lseek fsync fdatasync rename unlink link mkdir rmdir stat fstat access opendir readdir closedir mmap munmap fcntl getrlimit gettimeofday select fdopen \
-         pthread_mutex_init pthread_mutex_destroy pthread_mutex_lock pthread_mutex_unlock pthread_cond_init pthread_cond_destroy pthread_cond_wait pthread_cond_signal pthread_cond_broadcast pthread_create pthread_join pthread_detach
+         pthread_mutex_init pthread_mutex_destroy pthread_mutex_lock pthread_mutex_unlock pthread_cond_init pthread_cond_destroy pthread_cond_wait pthread_cond_signal pthread_cond_broadcast pthread_create pthread_join pthread_detach __assert_fail
 WRAPFLAGS := $(foreach w,$(WRAPS),-Wl,--wrap=$(w))
 
 all: $(B)/lsim
